@@ -10,13 +10,13 @@ pub fn prop() -> Prop {
     Prop {
         id: "C19",
         level: "fault_enumeration",
-        rule: "fault cases = a tree (2^1..2^9 leaves, pairwise distinct or with deliberately duplicated leaves) + one single-site fault: other leaf value / other in-range index / proof node replaced or two nodes swapped (single openings); one leaf, index or node changed, leaves list shortened, index duplicated, index out of range, empty index list (batch). Oracle: verification returns Ok iff the presented triple equals a genuine opening of the tree for the presented index (list), so duplicated leaves raise no alarm; out-of-range / duplicated / empty must be Err. malformed cases = arbitrary BatchMerkleProof {nodes: 0..8 x 0..8 digests, depth 0..=255} with arbitrary index and leaf lists: get_root, verify_batch and into_openings must return (Ok or Err) without panicking. Non-trivial = the fault changes the triple / the malformed proof gets past the index-map stage; distinct = hash of (hasher, tree seed, fault).",
+        rule: "fault cases = a tree (2^1..2^9 leaves, pairwise distinct or with deliberately duplicated leaves) + one single-site fault: other leaf value / other in-range index / proof node replaced or two nodes swapped (single openings); one leaf, index or node changed, leaves list shortened, index duplicated, index out of range, empty index list (batch). Oracle: verification returns Ok iff the presented triple equals a genuine opening of the tree for the presented index (list), so duplicated leaves raise no alarm; out-of-range / duplicated / empty must be Err. malformed cases = arbitrary BatchMerkleProof {nodes: 0..8 x 0..8 digests, depth 0..=255} with arbitrary index and leaf lists: get_root, verify_batch and into_openings must return (Ok or Err) without panicking. Non-trivial = the fault changes the triple / the malformed proof gets past the index-map stage; distinct = hash of (hasher, tree seed, fault). Sub-check deep_genuine: genuine openings of virtual trees of depth 1..63 (hand-made consistent paths; the proof types carry any depth) must be ACCEPTED by verify / verify_batch / get_root and expanded by into_openings without error or panic (the other direction of accept <=> genuine, at depths no built tree reaches).",
         assumptions: vec![
             "release profile: arithmetic on hostile depths wraps instead of trapping, as in the shipped library",
             "superfluous data that the verifier never reads (an extra leaf beyond the index list, an extra node at the end of a node vector) is recorded, not asserted: the property speaks about supplied data that differs from the tree's",
             "single-opening verification with an empty path is outside the generated domain (the panic-freedom clause of the property lists batch reconstruction, batch verification and expansion)",
         ],
-        subs: vec![Sub::gen("faults", faults, 200, 80_000, 3_000_000), Sub::gen("malformed", malformed, 200, 400_000, 20_000_000)],
+        subs: vec![Sub::gen("faults", faults, 200, 80_000, 3_000_000), Sub::gen("malformed", malformed, 200, 400_000, 20_000_000), Sub::gen("deep_genuine", crate::c18::deep_virtual, 160, 10_000, 300_000)],
         required: vec!["fault:batch_extra_node", "fault:leaf", "fault:index", "fault:node", "fault:batch_leaf", "fault:batch_index", "fault:batch_node", "fault:batch_short_leaves", "fault:batch_dup_index", "fault:batch_oob_index", "fault:batch_empty", "duplicated_leaves", "accepted_genuine_alternative", "malformed_past_index_map"],
         required_thorough: vec![],
     }
